@@ -1,5 +1,6 @@
 import PolyplyVerif.Driver.Common
 import PolyplyVerif.Model.ItpIO
+import PolyplyVerif.Model.C11Lex
 open Lean PolyplyVerif PolyplyVerif.ItpIO
 
 namespace PolyplyVerif.Driver.C11
@@ -179,13 +180,44 @@ def handle (j : Json) : Except String Json := do
       if s.startsWith "+" then .ok (s.drop 1).toString else .error "citation_formatter raises"
     match genParamsTail [] "out" argv moltype m citations cmapRaw fmt with
     | .ok fs => match FS.get fs "out" with
-      | some lines => pure (okJson [("lines", Json.arr (lines.map lineToJson).toArray), ("wf", wfB m), ("why", toJson (wfWhy m))])
+      | some lines =>
+        -- the same file as characters (`Model/C11Lex.lean`), and whether its hypotheses on the strings hold
+        let cites := match citeLines cmapRaw fmt citations with | .ok c => c | .error _ => []
+        let textR := C11Lex.writeGenParamsText argv cites moltype m
+        let text := match textR with
+          | .ok t => toJson (t.map String.ofList)
+          | .error _ => Json.null
+        let file := match textR with
+          | .ok t => Json.str (String.ofList (C11Lex.joinLines t))
+          | .error _ => Json.null
+        -- the claim of `C11_lex_render` evaluated on this molecule: lexing the text gives the token lines
+        let lexRoundtrip := match textR with
+          | .ok t => decide (C11Lex.lexText t = lines.map C11Lex.normLine)
+          | .error _ => false
+        pure (okJson [("lines", Json.arr (lines.map lineToJson).toArray), ("wf", wfB m), ("why", toJson (wfWhy m)),
+                      ("text", text), ("file", file), ("tokens_ok", C11Lex.tokensOk moltype m), ("lex_roundtrip", lexRoundtrip)])
       | none => pure (errJson "not written")
     | .error e => pure (Json.mkObj [("ok", false), ("err", Json.str e), ("wf", wfB m), ("why", toJson (wfWhy m))])
   | "read" =>
     let lines ← (← (← j.getObjVal? "lines").getArr?).toList.mapM lineOfJson
     let via ← (← j.getObjVal? "via").getStr?
     match (if via = "top" then readViaTop lines else readItp lines) with
+    | .ok b => pure (okJson [("block", blockToJson b)])
+    | .error e => pure (errJson e)
+  | "lex" =>
+    -- the lexer of the readers on raw lines
+    let raws ← strList (← j.getObjVal? "lines")
+    pure (okJson [("lines", Json.arr (raws.map (fun r => lineToJson (C11Lex.lexLine r.toList))).toArray)])
+  | "read_text" =>
+    -- the readers on the CHARACTERS of a file (one string per line)
+    -- `text`: one string per line, or `file`: the whole file as one string (cut by `splitLines`)
+    let via ← (← j.getObjVal? "via").getStr?
+    let text ← match j.getObjVal? "file" with
+      | .ok (Json.str f) => pure (C11Lex.splitLines f.toList)
+      | _ => do
+        let raws ← strList (← j.getObjVal? "text")
+        pure (raws.map String.toList)
+    match (if via = "top" then C11Lex.readViaTopText text else C11Lex.readItpText text) with
     | .ok b => pure (okJson [("block", blockToJson b)])
     | .error e => pure (errJson e)
   | "same" =>
